@@ -974,3 +974,92 @@ Proof. intro H.
     + intros [|c] k p off G; discriminate G.
     + reflexivity.
 Qed.
+
+(* ---- an association that has returned io.EOF is forgotten once its notification is worked off ---- *)
+Definition eofs (tr : list ev) : list cid := flat_map (fun e => match e with EEof c => [c] | _ => [] end) tr.
+Lemma eofs_app a b : eofs (a ++ b) = eofs a ++ eofs b.
+Proof. apply flat_map_app. Qed.
+
+Definition eof_inv (s : state) : Prop :=
+  (forall c, In c (eofs (trace s)) -> c < length (conns s)) /\
+  forall c k, get s c = Some k -> In c (eofs (trace s)) ->
+    In (caddr k, c) (closeCh s) \/ lookup (caddr k) (table s) <> Some c.
+
+Definition notifies_reliably (g : cfg) : Prop := read_eof_notifies g = true /\ read_notify_blocking g = true.
+
+Ltac eofs_simpl :=
+  unfold with_conn, with_conn_note; cbn [trace conns table closeCh];
+  rewrite ?eofs_app; cbn [eofs flat_map app]; rewrite ?app_nil_r.
+
+Lemma eof_inv_step g s t s' : notifies_reliably g -> eof_inv s -> exec g s t = Some s' -> eof_inv s'.
+Proof.
+  intros [RN RB] [B K] H. split.
+  { pose proof (exec_len _ _ _ _ H) as Ln. exec_cases H; try congruence; intros cx; eofs_simpl; intro I.
+    all: unfold with_conn, with_conn_note in Ln; cbn [conns] in Ln.
+    all: try (apply B in I; lia).
+    all: apply in_app_or in I; destruct I as [I|[I|[]]]; [apply B in I; lia|subst; rewrite length_upd; eapply get_lt; eauto]. }
+  exec_cases H; try congruence; intros cx kx G; conn_cases G; eofs_simpl; intro I.
+  all: cbn [caddr set_readq set_last set_phase set_rclosed set_sclosed new_conn].
+  all: try (apply in_app_or in I; destruct I as [I|[I|[]]]).
+  all: try (eapply K; eauto; fail).
+  all: try (destruct (K _ _ ltac:(eassumption) I) as [J|J]; [left; apply in_or_app; left; exact J|right; exact J]; fail).
+  all: try (left; apply in_or_app; right; left; reflexivity).
+  all: try (apply B in I; lia).
+  all: try (exfalso; congruence).
+  (* LoopClose *)
+  all: try (destruct (K _ _ G I) as [[J|J]|J];
+            [ inversion J; subst; right; rewrite ?lookup_remove, ?Nat.eqb_refl; try discriminate
+            | left; exact J
+            | right; rewrite ?lookup_remove; try (destruct (Nat.eqb (caddr kx) a)); [discriminate|exact J] || exact J ]).
+  - destruct (K _ _ G I) as [[J|J]|J]; [|left; exact J|right; exact J].
+    inversion J; subst. right. rewrite E3. intro Q. inversion Q; subst. rewrite Nat.eqb_refl in E5. discriminate.
+  - destruct (K _ _ G I) as [[J|J]|J]; [|left; exact J|right; exact J].
+    inversion J; subst. right. match goal with L : lookup _ _ = None |- _ => rewrite L end. discriminate.
+  - destruct (K _ _ G I) as [J|J]; [left; exact J|right].
+    rewrite lookup_cons. destruct (Nat.eqb (src p) (caddr kx)) eqn:Q.
+    + intro Z. inversion Z. apply get_lt in G. lia.
+    + rewrite lookup_remove. rewrite Nat.eqb_sym in Q. rewrite Q. exact J.
+Qed.
+
+Lemma eof_inv_init : eof_inv init.
+Proof. split; [intros c []|intros c k _ []]. Qed.
+
+(* every execution of a configuration whose Read notifies with a blocking send: an association
+   that has returned io.EOF and whose notification is no longer queued does not own a table entry,
+   so the loop cannot hand it another datagram it takes from now on *)
+Lemma eof_forgotten g ts s c k :
+  notifies_reliably g -> run g init ts = Some s ->
+  get s c = Some k -> In c (eofs (trace s)) -> ~ In (caddr k, c) (closeCh s) ->
+  lookup (caddr k) (table s) <> Some c.
+Proof.
+  intros NR R G I NQ. eapply (run_inv eof_inv g) in R; [|intros; eapply eof_inv_step; eauto|apply eof_inv_init].
+  destruct R as [_ K]. destruct (K _ _ G I) as [J|J]; [contradiction|exact J]. Qed.
+
+Lemma src_notifies_reliably : notifies_reliably src_cfg.
+Proof. split; reflexivity. Qed.
+
+(* the lossy variant: victim (address 1) gets association 0; ten short-lived associations
+   (addresses 10..19) and a slow one (address 2) follow; the slow handler does not read, so the
+   loop blocks in its send; the ten handlers return and their notifications fill closeCh; the
+   victim idles out - its notification is dropped; the slow handler reads, the loop works
+   everything off; a later datagram of the victim is handed to association 0, which has ended *)
+Definition closer_arrive (i : nat) : list step := [SockRecv (D (10 + i) (1 + i) 8%N); LoopRecv; LoopSend].
+Definition closer_finish (i : nat) : list step :=
+  [HandlerReturn (1 + i); CloseStep (1 + i); CloseStep (1 + i); CloseStep (1 + i); CloseStep (1 + i)].
+Definition lossy_witness : list step :=
+  [SockRecv (D 1 0 8%N); LoopRecv; LoopSend; ConnRead 0 9000%N] ++
+  flat_map closer_arrive (seq 0 10) ++
+  flat_map (fun i => [SockRecv (D 2 (20 + i) 8%N); LoopRecv; LoopSend]) (seq 0 5) ++
+  [SockRecv (D 2 25 8%N); LoopRecv] ++
+  flat_map closer_finish (seq 0 10) ++
+  [ConnIdle 0; ConnRead 11 9000%N; LoopSend] ++ repeat LoopClose 10 ++
+  [SockRecv (D 1 30 8%N); LoopRecv].
+
+Lemma lossy_serves_ended_association :
+  exists s, run lossy_cfg init lossy_witness = Some s /\
+    In 0 (eofs (trace s)) /\ closeCh s = [] /\ pending s = Some (D 1 30 8%N, 0) /\ length (conns s) = 12.
+Proof. eexists. split; [vm_compute; reflexivity|]. repeat split; vm_compute; auto. Qed.
+
+(* the same history on the source configuration is not an execution: Read blocks in its send *)
+Lemma src_blocks_instead : run src_cfg init lossy_witness = None.
+Proof. vm_compute. reflexivity. Qed.
